@@ -27,8 +27,13 @@ def run(ctx):
         fine = dict(family=("lease", "deqvar"), horizon=30, maxep=2, maxins=1, ticks=(1, 5, 10), delays=(0, 7), ttls=(5, 10), timeout=1500)
         plan = {"mc": [("time_mem", mem, PROPS, coarse), ("time_mem_fine", mem, PROPS, fine),
                        ("time_sql", sql, PROPS, coarse), ("time_sql_fine", sql, PROPS, fine)],
-                "gen": [("time", mem, dict(family=("lease", "deqvar"), horizon=30, maxep=2, maxins=2, pick="insertion", ttls=(5, 10), ticks=(5, 10), delays=(0, 5)), 1),
-                        ("time_sql", sql, dict(family=("lease", "deqvar"), horizon=30, maxep=2, maxins=1, pick="nextrun", ttls=(5,), ticks=(1, 9, 10), delays=(0, 5)), 1)],
+                # the exhaustive edge graph of the larger configurations has > 6M edges (measured): exhaustive on the one-insertion
+                # graph, then long random behaviours (TLC -simulate) of the large memory- and SQLite-shaped models
+                "gen": [("time", mem, dict(family=("lease", "deqvar"), horizon=20, maxep=2, maxins=1, pick="insertion", ttls=(5, 10), ticks=(5, 10), delays=(0, 5)), 1),
+                        ("time_sim", mem, dict(family=("lease", "deqvar"), horizon=30, maxep=2, maxins=2, pick="insertion", ttls=(5, 10), ticks=(1, 5, 10),
+                                               delays=(0, 5, 7), simulate=600, depth=30), 1),
+                        ("time_sql_sim", sql, dict(family=("lease", "deqvar"), horizon=30, maxep=2, maxins=2, pick="nextrun", ttls=(5, 10), ticks=(1, 9, 10),
+                                                   delays=(0, 5), simulate=600, depth=30), 1)],
                 "drv": [("time", "time", 4000, 90, dict(churn_every=100))]}
     q.liveness(ctx)
     q.pull_part(ctx, 24 if ctx.quick else 400, 50, 4)
